@@ -400,6 +400,13 @@ def run_property(prop_id, tier, seed, only_shards=None, procs=None):
         specs = [s for s in specs if any(s["name"].startswith(o) for o in only_shards)]
     for i, s in enumerate(specs):
         s.setdefault("seed_offset", i)
+    # SYNVERIF_SCALE=<f>: scale the number of generated cases per Hypothesis shard (smoke-testing a tier quickly;
+    # registered commands never set it)
+    scale = float(os.environ.get("SYNVERIF_SCALE") or 1)
+    if scale != 1:
+        for s in specs:
+            if "examples" in s:
+                s["examples"] = max(5, int(s["examples"] * scale))
     procs = procs or min(16, max(1, sum(s.get("procs", 1) for s in specs)))
     nproc = max(1, min(16, len(specs)))
     # long shards first so the pool drains evenly
